@@ -183,6 +183,21 @@ impl G {
                 _ => Polygon::new(rot_ring(&rev_ls(p.exterior()), 2), p.interiors().iter().rev().cloned().collect()),
             }
         };
+        // same point set with every segment split at its midpoint (collinear vertices), rings also
+        // re-started at such a midpoint so that the coordinate list begins inside a collinear run
+        // (quarter points: lattice coordinates are multiples of 4 or 2, so k/4 of a segment is exact)
+        let split_ls = |l: &LineString<f64>, parts: usize| {
+            let mut v: Vec<Coord<f64>> = vec![];
+            for w in l.0.windows(2) {
+                for k in 0..parts {
+                    let t = k as f64 / parts as f64;
+                    v.push(Coord { x: w[0].x + (w[1].x - w[0].x) * t, y: w[0].y + (w[1].y - w[0].y) * t });
+                }
+            }
+            if let Some(last) = l.0.last() { v.push(*last); }
+            LineString::new(v)
+        };
+        let mid_ls = |l: &LineString<f64>| split_ls(l, 2);
         match self {
             G::Point(p) => {
                 out.push(("mp1".into(), G::MultiPoint(MultiPoint::new(vec![*p]))));
@@ -201,6 +216,11 @@ impl G {
                 }
                 if l.0.len() >= 4 && l.0[0] == l.0[l.0.len() - 1] {
                     out.push(("rot".into(), G::LineString(rot_ring(l, 1))));
+                    out.push(("midrot".into(), G::LineString(rot_ring(&mid_ls(l), 1))));
+                    out.push(("quarterrot".into(), G::LineString(rot_ring(&split_ls(l, 4), 2))));
+                }
+                if l.0.len() >= 2 {
+                    out.push(("mid".into(), G::LineString(mid_ls(l))));
                 }
             }
             G::Polygon(p) => {
@@ -208,6 +228,7 @@ impl G {
                     out.push((format!("pv{w}"), G::Polygon(poly_var(p, w))));
                 }
                 out.push(("mpoly1".into(), G::MultiPolygon(MultiPolygon::new(vec![p.clone()]))));
+                out.push(("midrot".into(), G::Polygon(Polygon::new(rot_ring(&mid_ls(p.exterior()), 1), p.interiors().iter().map(|h| rot_ring(&mid_ls(h), 3)).collect()))));
             }
             G::MultiPoint(m) => {
                 out.push(("rev".into(), G::MultiPoint(MultiPoint::new(m.0.iter().rev().cloned().collect()))));
@@ -296,3 +317,13 @@ pub trait ToGeom {
 }
 macro_rules! to_geom { ($($t:ident),*) => { $(impl ToGeom for $t<f64> { fn to_geom(self) -> Geometry<f64> { Geometry::$t(self) } })* } }
 to_geom!(Point, Line, LineString, Polygon, MultiPoint, MultiLineString, MultiPolygon, Rect, Triangle, GeometryCollection);
+
+/// Maps that are NOT part of the regular rotation: used only by pinned cases (known findings).
+pub fn pinned_map(name: &str) -> Option<ExactMap> {
+    match name {
+        // M = 2^20 + 1: proper crossings of the mapped (nearly parallel, 2^44-sized) segments are no
+        // longer located exactly by line_intersection, and relate loses them
+        "shear_2p20" => Some(ExactMap { name: "shear_2p20", m: [1.0, 1048577.0, 0.0, 1048577.0, 1.0 + 1048577.0 * 1048577.0, 0.0], axis: false }),
+        _ => None,
+    }
+}
